@@ -492,6 +492,16 @@ def check_sequence(ctx, case):
     typ, raw = case['type'], case['raw']
     codes = R.clean(raw)
     what = 'Sequence(%r, type=%s)' % (raw if len(raw) < 60 else raw[:57] + '...', typ)
+    if len(codes) % 4 == 1:
+        # first a sequence the library refuses (valid codes followed by one that is not a code of that type; an unknown
+        # sequence type), caught by the caller: the judged sequence that follows is a new request
+        for bad_raw, bad_typ in ((codes[:7] + ('U' if typ == 'aa' else 'J') + codes[:3], typ), (codes[:5] + '?', typ),
+                                 (codes, 'xna')):
+            try:
+                fasta.Sequence('refused', bad_raw, type=bad_typ)
+                ctx.count('refused_sequence.accepted')
+            except Exception:
+                ctx.count('refused_sequence.refused')
     S = fasta.Sequence('s', raw, type=typ)
     ok, e = _check_against_ref(ctx, S, typ, codes, what, length=len(codes),
                                has_space=' ' in raw, has_star='*' in raw)
